@@ -583,6 +583,7 @@ def rel_holds(rel, env):
 def acceptance_mismatch(rels, roles, grid, reference):
     """Compare the conjunction of the branch facts that only mention the role variables with a reference predicate on a
     grid of assignments.  roles: name -> term; grid: iterable of dicts name -> int; reference(**assignment) -> bool.
+    The reference may answer None (don't care) where a different guard decides the point.
     Returns None when they agree everywhere, else a description of the first disagreement."""
     used = 0
     for point in grid:
@@ -596,12 +597,35 @@ def acceptance_mismatch(rels, roles, grid, reference):
             if not h:
                 acc = False
                 break
-        want = bool(reference(**point))
+        want = reference(**point)
+        if want is None:  # don't care: another guard decides this point
+            continue
+        want = bool(want)
         if acc != want:
             return "at %s the code %s but the reference %s" % (point, "accepts" if acc else "rejects", "accepts" if want else "rejects")
     if used == 0:
         return "no branch fact mentions the checked quantities (guard missing?)"
     return None
+
+
+def rejection_witness(rels, roles, grid, consistent):
+    """For an error-producing site: is there a grid point that satisfies every evaluable fact of the path condition although the reference
+    still accepts such inputs (`consistent`)?  Returns (point or None, number of evaluable facts)."""
+    used = 0
+    for point in grid:
+        env = {roles[k]: v for k, v in point.items()}
+        holds = True
+        for rel in rels:
+            h = rel_holds(rel, env)
+            if h is None:
+                continue
+            used += 1
+            if not h:
+                holds = False
+                break
+        if holds and consistent(**point):
+            return point, used
+    return None, used
 
 
 # ------------------------------------------------------------------------------------------------ container invariants
